@@ -265,12 +265,90 @@ def r11_3(prog, tab, rid="R11.3", where="libasn1fix/", fatal=None, floor=60, exc
     return r
 
 
+def r11_4(prog, tab):
+    """Module-wide pass barriers.  For each (before, after) pair of the table inside the named driver function: every
+    call site that runs `after` (directly, or as the callback handed to asn1f_recurse_expr) is dominated by the header
+    of a loop that contains a `before` site and does not contain the `after` site: the earlier pass has been applied to
+    every member of the module before the later pass looks at the first one."""
+    r = Rule("R11.4", "tag-distinctness checking starts only after tagging passes have run over the whole module", floor=3)
+    for row in tab.get("pass_barriers", []):
+        f = prog.func(row["function"])
+        if f is None:
+            raise AnalysisBroken("%s not found" % row["function"])
+
+        def sites(name):
+            out = []
+            for b, i, e in f.calls():
+                if e.get("callee") == name or any(n[0] == "fn" and n[1] == name for a in e.get("args", []) for n in walk(a.get("tree"))):
+                    out.append((b, i, e))
+            return out
+        bs, as_ = sites(row["before"]), sites(row["after"])
+        if not bs or not as_:
+            raise AnalysisBroken("%s: pass %s or %s not found" % (row["function"], row["before"], row["after"]))
+        loops = f.loops()
+        dom = f.dominators()
+        for ab, ai, ae in as_:
+            key = "%s<%s" % (row["before"], row["after"])
+            good = False
+            for bb, bi, be in bs:
+                for h, body in loops:
+                    if bb.id in body and ab.id not in body and h in dom.get(ab.id, ()):
+                        good = True
+            if good:
+                r.ok(f, key, "the loop applying %s to every member is complete before %s runs" % (row["before"], row["after"]), ae["line"])
+            else:
+                r.bad(f, key, "%s can run for one member before %s has been applied to all members (same loop, or no dominating "
+                              "loop): %s" % (row["after"], row["before"], row["reason"]), ae["line"])
+    return r
+
+
+def r11_5(prog, tab):
+    """The member marker (EM_INDIRECT 0x01, EM_OMITABLE 0x02, EM_OPTIONAL 0x07, EM_DEFAULT 0x0F, EM_UNRECURSE 0x10) is a
+    bit set whose named values include one another: DEFAULT is a superset of OPTIONAL, and EM_INDIRECT/EM_UNRECURSE
+    are or-ed in by the code generator.  Every test of `marker.flags` must therefore be a truth test or go through a
+    mask; an `==` / `!=` against a non-zero enumerator without a mask silently excludes DEFAULT (or pointer-represented)
+    members, e.g. from the run of optional components whose tags must be distinct."""
+    r = Rule("R11.5", "marker.flags is tested by truth value or through a mask, never by raw (in)equality with a non-zero enumerator", floor=12)
+
+    def is_flags(t):
+        t = strip_casts(t)
+        return isinstance(t, list) and t and t[0] == "member" and t[2] == "flags" and "marker" in tree_text(t)
+    counts = collections.Counter()
+    for f in sorted(prog.funcs.values(), key=lambda f: f.key):
+        n = 0
+        seen = set()
+        for b, line, tree in f.all_trees():
+            for nd in walk(tree):
+                if not (isinstance(nd, list) and nd and nd[0] == "bin"):
+                    continue
+                if nd[1] in ("==", "!=") and (is_flags(nd[2]) or is_flags(nd[3])):
+                    other = nd[3] if is_flags(nd[2]) else nd[2]
+                    c = const_of(other)
+                    if (line, tree_text(nd)) in seen:
+                        continue
+                    seen.add((line, tree_text(nd)))
+                    n += 1
+                    key = "cmp@%d" % n
+                    if c == 0:
+                        r.ok(f, key, "comparison with 0 (no marker at all)", line)
+                    elif c is None:
+                        r.ok(f, key, "two marker sets compared with each other", line)
+                    else:
+                        r.bad(f, key, "`%s`: raw comparison of the marker bit set with %s; DEFAULT (0x0F) contains OPTIONAL (0x07) and "
+                                      "EM_INDIRECT/EM_UNRECURSE may be or-ed in, so members are silently excluded" % (tree_text(nd), tree_text(other)), line)
+                elif nd[1] == "&" and (is_flags(nd[2]) or is_flags(nd[3])):
+                    counts[f.key] += 1
+        if counts[f.key]:
+            r.ok(f, "masked-tests", "%d tests of marker.flags go through a mask" % counts[f.key], None)
+    return r
+
+
 def run(ctx):
     prog = ctx.prog("K")
     tab = load_tables("c11")
     r1, siteok, sf = r11_1(prog, tab)
     r2 = r11_2(prog, tab, siteok, sf)
-    return [r1, r2, r11_3(prog, tab)]
+    return [r1, r2, r11_3(prog, tab), r11_4(prog, tab), r11_5(prog, tab)]
 
 
 def thorough(ctx):
